@@ -124,6 +124,7 @@ class World:
         self.sched = []
         self.reuse_ops = 0
         self.late = []
+        self.held = []            # results the caller still holds: (idx, label, value, digest)
         self.faults_fired = 0
         self.boundaries = 0
 
@@ -425,6 +426,15 @@ def _run_op(world, idx, op):
         _viol(world, 'O1', idx, name, a,
               f'caller-visible arrays modified: {changed[:4]}',
               outcome=out.cls(), fault=fault)
+    # ---- O1b results the caller still holds from earlier calls are the
+    # caller's: no later call may change them
+    for h_idx, h_label, h_value, h_digest in world.held:
+        if dg.digest(h_value) != h_digest:
+            _viol(world, 'O1', idx, name, a,
+                  f'the result of an earlier call (operation {h_idx}, '
+                  f'{h_label}) that the caller still holds was changed by '
+                  f'this call', outcome=out.cls(), fault=fault)
+            break
     # ---- O6 no leaked global state
     if gs1 != gs0:
         _viol(world, 'O6', idx, name, a,
@@ -643,6 +653,9 @@ def _run_op(world, idx, op):
             world.rmodels[idx] = PoolModel(out3.value, rm, origin)
     if out.kind == 'ok':
         world.late.append((idx, name, a, rng0, dg.digest(out.value), label))
+        world.held.append((idx, label, out.value, dg.digest(out.value)))
+        del world.held[:-6]
+        world.count('held_result_checks', len(world.held))
     seams.rng_set(rng1)
     finish()
 
